@@ -89,6 +89,16 @@ def int_binop(op, a, b, ty):
         if base == "Add" and a.bits is not None and b.bits is not None and fits:
             if all(x == 0 or y == 0 for x, y in zip(a.bits, b.bits)):
                 bits = tuple(bit_or(x, y) for x, y in zip(a.bits, b.bits))
+        if base == "Add" and bits is None and a.bits is not None and b.bits is not None and fits:
+            # exact ripple-carry addition when every bit is a constant or a truth-table function of option atoms
+            from .domain import _fmask
+            if all(_fmask(x) is not None for x in a.bits) and all(_fmask(x) is not None for x in b.bits):
+                out, carry = [], 0
+                for x, y in zip(a.bits, b.bits):
+                    xy = bit_xor(x, y)
+                    out.append(bit_xor(xy, carry))
+                    carry = bit_or(bit_and(x, y), bit_and(carry, xy))
+                bits = tuple(out)
         if base == "Mul" and fits and a.bits is not None and b.is_const() and b.lo > 0 and b.lo & (b.lo - 1) == 0:
             k = b.lo.bit_length() - 1
             bits = ((0,) * k + a.bits)[:w]
